@@ -173,6 +173,9 @@ pub enum WOp {
     /// write exactly as many bytes as leave `spare` bytes of the buffer free (flushing first if
     /// needed); puts the following operation right at the end of the buffer
     FillSpare(usize),
+    /// Write::write_vectored with slices of these lengths, repeated on the remainder until everything is
+    /// accepted (what write_all_vectored does)
+    Vectored(Vec<usize>),
 }
 
 pub fn gen_history(rng: &mut Rng, cap: usize, max_ops: usize) -> Vec<WOp> {
@@ -223,7 +226,23 @@ pub fn gen_history(rng: &mut Rng, cap: usize, max_ops: usize) -> Vec<WOp> {
                     len,
                 }
             }
-            40..=64 => WOp::Int(gen_int(rng)),
+            40..=42 => {
+                // slices around the room that is left in the buffer: fits / does not fit / fits again
+                let n = 1 + rng.usize(5);
+                WOp::Vectored(
+                    (0..n)
+                        .map(|_| match rng.below(6) {
+                            0 => 0,
+                            1 => 1 + rng.usize(60),
+                            2 => 400 + rng.usize(200),
+                            3 => cap - 300 + rng.usize(600),
+                            4 => rng.usize(2 * cap),
+                            _ => 1 + rng.usize(20),
+                        })
+                        .collect(),
+                )
+            }
+            43..=64 => WOp::Int(gen_int(rng)),
             65..=74 => {
                 let n = match rng.below(5) {
                     0 => rng.usize(64),
@@ -278,6 +297,7 @@ pub struct RunResult {
     pub boundary_fills: u64,
     pub dropped_unwinding: bool,
     pub after_a_writer_lost_to_a_sink_panic: bool,
+    pub vectored_ops: u64,
 }
 
 /// Apply `ops` to a fresh writer over a sink with `policy`; judge after every operation.
@@ -318,6 +338,7 @@ pub fn run_history(ops: &[WOp], policy: SinkPolicy, sink_seed: u64, cap: usize, 
     let mut int_types = 0u16;
     let mut ops_done = 0usize;
     let mut boundary_fills = 0u64;
+    let mut vectored_ops = 0u64;
 
     // judge the sink events produced by one client operation
     let mut judge = |expected: &Vec<u8>,
@@ -437,6 +458,57 @@ pub fn run_history(ops: &[WOp], policy: SinkPolicy, sink_seed: u64, cap: usize, 
                 if let Some(b) = buffered_model.as_mut() {
                     *b = model_buffered_after_write(*b, *len, cap);
                 }
+                r.is_err()
+            }
+            WOp::Vectored(lens) => {
+                let start = expected.len();
+                let total: usize = lens.iter().sum();
+                let data: Vec<u8> = (start..start + total).map(ident_byte).collect();
+                expected.extend_from_slice(&data);
+                let mut done = 0usize;
+                let mut bad: Option<String> = None;
+                let r = sut_caught(|| {
+                    let mut rounds = 0;
+                    while done < total {
+                        // the slices that are left, the first one possibly cut
+                        let mut slices: Vec<std::io::IoSlice> = vec![];
+                        let mut off = 0;
+                        for &l in lens.iter() {
+                            let (a, b) = (off.max(done), off + l);
+                            if b > a {
+                                slices.push(std::io::IoSlice::new(&data[a..b]));
+                            } else if l == 0 && off >= done {
+                                slices.push(std::io::IoSlice::new(&[]));
+                            }
+                            off += l;
+                        }
+                        match wr.write_vectored(&slices) {
+                            Ok(0) => {
+                                bad = Some("write_vectored returned Ok(0) for non-empty slices".into());
+                                break;
+                            }
+                            Ok(n) if n > total - done => {
+                                bad = Some(format!("write_vectored returned {} for {} offered bytes", n, total - done));
+                                break;
+                            }
+                            Ok(n) => done += n,
+                            Err(e) => {
+                                bad = Some(format!("write_vectored returned an error: {}", e));
+                                break;
+                            }
+                        }
+                        rounds += 1;
+                        if rounds > 10_000 {
+                            bad = Some("write_vectored makes no progress".into());
+                            break;
+                        }
+                    }
+                });
+                if let Some(b) = bad {
+                    problems.push(format!("{}: {}", opname, b));
+                }
+                vectored_ops += 1;
+                buffered_model = None;
                 r.is_err()
             }
             WOp::Int(v) => {
@@ -699,6 +771,7 @@ pub fn run_history(ops: &[WOp], policy: SinkPolicy, sink_seed: u64, cap: usize, 
         boundary_fills,
         dropped_unwinding,
         after_a_writer_lost_to_a_sink_panic,
+        vectored_ops,
     }
 }
 
@@ -841,6 +914,7 @@ impl Monitor for C11 {
             rep.count("buf_write_ptr_nonnull", r.ptr_nonnull);
             rep.count("buf_write_ptr_null", r.ptr_null);
             rep.count("boundary_fills", r.boundary_fills);
+            rep.count("client_write_vectored_ops", r.vectored_ops);
             if r.dropped_unwinding {
                 rep.inc("writers_dropped_by_unwinding_from_a_client_panic");
             }
